@@ -1425,7 +1425,9 @@ fn tri_probes(r: &mut Rng, out: &mut Out, st: &mut Stats) {
 
 /// sphere pole guard: |x|,|y| < 1e-5 * radius
 fn pole_probe(r: &mut Rng, out: &mut Out, st: &mut Stats) {
-    let rad = r.pick(&[1., 2., 0.5, 3.7]) as Float;
+    // round radii, and arbitrary ones: for about one radius in ten the hit point re-projected onto the sphere has |z| one ulp
+    // above the radius, so that the polar angle is only defined thanks to the clamp of its cosine
+    let rad = if r.bool() { r.pick(&[1., 2., 0.5, 3.7]) as Float } else { r.range(0.05, 5.) };
     let spec = if r.bool() {
         Spec::SphNew { r: rad, c: zero_pt() }
     } else {
@@ -1439,6 +1441,8 @@ fn pole_probe(r: &mut Rng, out: &mut Out, st: &mut Stats) {
         1 => (0.5 * lim * r.sign(), f * lim * r.sign()),
         _ => (f * lim * r.sign(), f * lim * r.sign()),
     };
+    // exactly along the axis one time in four
+    let (x, y) = if r.below(4) == 0 { (0., 0.) } else { (x, y) };
     let s = r.sign();
     // from outside towards the pole, or from inside (far root) towards it
     let ray = if r.below(3) == 0 {
@@ -1524,7 +1528,7 @@ pub fn c13(r: &mut Rng, out: &mut Out, n: usize) {
     let mut st = Stats::new();
     for i in 0..(n + 1) / 2 {
         // rays through (or next to) a pole of the sphere: the parametrisation is singular there
-        if i % 20 == 0 {
+        if i % 10 == 0 {
             pole_probe(r, out, &mut st);
         }
         let kind = r.pick(&[0, 0, 1, 1, 2, 2, 2, 3, 3, 3, 4]);
